@@ -124,9 +124,10 @@ def snapshot(detector) -> dict:
         snap[name] = bucket_state(detector, name)
     snap["public_empty"] = {name: public_empty(detector, name) for name in BUCKETS}
     try:
-        # (DataTree.is_empty looks at the root node only; sources live in the children /list/<n>)
-        snap["scene_empty"] = all(bool(node.is_empty) for node in detector.scene.data.subtree)
-        snap["scene_sources"] = sum(1 for node in detector.scene.data.subtree if not node.is_empty)
+        # scene_empty: the root node only (what DataTree.is_empty reports; C18 compares it with the stored file);
+        # scene_empty_deep: no node of the subtree holds anything (sources live in the children /list/<n>)
+        snap["scene_empty"] = bool(detector.scene.data.is_empty)
+        snap["scene_empty_deep"] = all(bool(node.is_empty) for node in detector.scene.data.subtree)
     except Exception as exc:  # noqa: BLE001
         snap["scene_empty"] = f"error {exc!r}"
     try:
